@@ -97,9 +97,21 @@ class Engine:
         if verdict == 'sat':
             ob.model = self.extract_model(st, q, model)
         self.obligations.append(ob)
-        st.assume(goal)
+        # a proved goal is implied by the path condition; it is added only in a shape that helps later
+        # queries (quantifier-free, or a plain universal): a quantifier under if/or/implies slows them down
+        if verdict != 'unsat' or self.assumable(goal):
+            st.assume(goal)
         if verdict == 'sat' and is_false(goal):
             raise PathDead()
+
+    def assumable(self, g):
+        if not smt.has_quant(g):
+            return True
+        if z3.is_quantifier(g):
+            return g.is_forall()
+        if z3.is_and(g):
+            return all(self.assumable(k) for k in g.children())
+        return False
 
     # ------------------------------------------------------------ model extraction
     def extract_model(self, st, q, model):
